@@ -343,6 +343,56 @@ def run(ctx):
     cf.evaluations += 1
     if not okf:
         res.add(Finding('C18', 'C18.f', 'R-AGREE', lk.file, lk.qualname, lk.node.lineno, 'skip-incomplete filter', why))
+    # ---- C18.h the metadata handed to the recording is what is stored: after the hand-over (add_metadata receives the dict itself, a cassette
+    # may apply it later) the scope does not touch it again
+    from . import common as _cm18
+    ch18 = res.clause('C18.h', 'R-ORDER', 'the metadata object is not modified after it was handed to the recording', floor=1)
+    pm_ = roles.post_metadata
+    handover = []
+    for n in ast.walk(roles.start.node):
+        if isinstance(n, ast.Call) and isinstance(n.func, ast.Attribute) and (n.func.attr == 'add_metadata' or (pm_ is not None and n.func.attr == pm_.name)):
+            for a in n.args:
+                if isinstance(a, ast.Name):
+                    handover.append((n, a.id))
+    late = []
+    for call_, nm_ in handover:
+        for n in ast.walk(roles.start.node):
+            if getattr(n, 'lineno', 0) <= call_.lineno:
+                continue
+            mut = (isinstance(n, ast.Call) and isinstance(n.func, ast.Attribute) and n.func.attr in _cm18.MUTATORS and isinstance(n.func.value, ast.Name) and
+                   n.func.value.id == nm_) or \
+                  (isinstance(n, (ast.Assign, ast.AugAssign, ast.Delete)) and any(
+                      isinstance(t_, ast.Subscript) and isinstance(t_.value, ast.Name) and t_.value.id == nm_
+                      for t_ in (n.targets if isinstance(n, (ast.Assign, ast.Delete)) else [n.target])))
+            if mut:
+                late.append((n, nm_))
+    ch18.instance('%d hand-over(s) of the metadata in the scope; nothing writes into it afterwards' % len(handover), roles.start.qualname, bool(handover) and not late)
+    if not handover:
+        raise AnalysisError('anchor-lost role=metadata hand-over in the recording scope')
+    for n, nm_ in late[:1]:
+        res.add(Finding('C18', 'C18.h', 'R-ORDER', roles.start.file, roles.start.qualname, n.lineno, norm(n)[:100],
+                        '`%s` modifies the metadata after it was handed to the recording: a recording that applies it later (the asynchronous cassette '
+                        'queues the very dict) stores the modified version - flags set for this run are missing from what is saved' % norm(n)[:80]))
+    # ---- C18.g the entry that decides "incomplete" is written by the scope's own operation only: an operation invoked while a recording
+    # is already active (nested) must not put its result into that recording
+    cg18 = res.clause('C18.g', 'R-TYPESTATE', 'an operation entered while a recording is active writes nothing into that recording', floor=1)
+    dn = rm.run_closure(ctx, 'operation', 'recording')
+    cg18.evaluations += dn.visited_pairs
+    badn = None
+    nex = 0
+    for n_, s_ in dn.exits:
+        nex += 1
+        if dn.n(s_, 'store:active-recording') or dn.n(s_, 'enter:executor'):
+            badn = badn or (n_, s_)
+    fac_g, deco_g, cl_g = roles.closures['operation']
+    cg18.instance('operation decorator entered with an active recording: no entry stored into it on %d exits' % nex, cl_g.qualname, badn is None and nex > 0)
+    if badn or not nex:
+        n_, s_ = badn if badn else (None, None)
+        res.add(Finding('C18', 'C18.g', 'R-TYPESTATE', cl_g.file, cl_g.qualname, cl_g.node.lineno, 'nested operation writes into the enclosing recording',
+                        'an operation invoked while another recording is active runs through the executor and stores its result under the operation-'
+                        'output key of the enclosing recording: if the outer operation is then interrupted, its recording already holds an operation '
+                        'output and is saved as complete (incomplete flag false, no exception flag)',
+                        witness=dn.path_to(n_, s_) if n_ is not None else None, exit=rm.exit_kind(n_) if n_ is not None else None))
     return res
 
 
